@@ -139,6 +139,18 @@ CHECKS["C20"] = dict(
          "size 3 + 120 larger ones; relies on the call-source fix ced863b for the flow clause.",
     design_ref="5/C20", engine="EntryPoints")
 
+CHECKS["C11"] = dict(
+    category="model_checking",
+    technique="TLA+ specification of rule matching and of the flow-insensitive, context-insensitive, field-based taint closure (TaintRules.tla); TLC computes the closure per recorded lian run (program x rule set) and judges every reported flow, plus monotonicity between recorded runs",
+    text="One case per real lian run: GIR rows, the run's rule set, the reported flows. RuleMatches (operation, name, language, unit name, line) "
+         "must hold for the source and the sink statement of every reported flow; the flow must be inside Upper, the fixpoint TLC computes by "
+         "sweeping the rows (one sweep per step) with the sink's rule-designated argument position; for runs of the same program whose rule sets "
+         "are ordered by inclusion the flow sets must be ordered the same way.",
+    note="Upper is deliberately coarse (names merged across functions, unknown callees propagate every argument): it only refutes fabricated flows. "
+         "Programs: flow chains of length <= 1, special programs (other argument position, unrelated object/variable, overwritten, parameter named like a "
+         "rule), a two-file and a two-language project; 20 rule configurations incl. empty, other language/unit/line, per-line sink positions, extended sets.",
+    design_ref="5/C11", engine="TaintRules")
+
 CHECKS["C10"] = dict(
     category="model_checking",
     technique="GIRMachine (TLA+ GIR semantics) extended with a taint tag set per value, run by TLC on the GIR of flow-chain programs; observed (source, sink) pairs must be in lian's reported flows",
@@ -154,6 +166,8 @@ NOT_YET = {
 }
 
 ENGINES = [
+    dict(name="TaintRules", path="specs/TaintRules.tla harness/c11.py harness/taintgen.py harness/girjson.py harness/lianrun.py",
+         serves_properties=["C11"], kind_free_text="TLA+ rule-match predicate and taint closure, TLC as fixpoint engine over recorded runs"),
     dict(name="EntryPoints", path="specs/EntryPoints.tla harness/c20.py harness/c20_post.py",
          serves_properties=["C20"], kind_free_text="TLA+ contract + operational model + trace validation of runs, TLC"),
     dict(name="GIRMachine", path="specs/GIRMachine.tla harness/c01.py harness/c02.py harness/pygen.py harness/coregen.py harness/girjson.py harness/lianrun.py",
